@@ -306,6 +306,10 @@ class Interp:
         from . import models as _m
         kwargs = kwargs or {}
         if isinstance(f, Closure):
+            cm = getattr(self, "closure_models", None)
+            if cm and f.name in cm:
+                # contract of a nested function, keyed by its name (it has no real function object to key on)
+                return cm[f.name](self, *args, **kwargs)
             return self.run_closure(f, args, kwargs)
         if isinstance(f, BoundMethod):
             return self.call(f.func, (f.obj,) + tuple(args), kwargs)
@@ -846,6 +850,9 @@ class Interp:
         clo.defaults = tuple(self.eval(d, frame) for d in s.args.defaults)
         clo.kwdefaults = {p.arg: self.eval(d, frame) for p, d in zip(s.args.kwonlyargs, s.args.kw_defaults) if d is not None}
         frame.store(s.name, clo)
+        h = getattr(self, "funcdef_hook", None)
+        if h is not None:
+            h(s.name, clo)
 
     # loops ---------------------------------------------------------------
     def s_For(self, s, frame):
